@@ -98,6 +98,9 @@ def cellText (c : Cell) : Option Str :=
 /-- `trim_trailing_empty` (72-79) -/
 def trimTrailing {α} (l : List α) (n : Nat) : List α := if 0 < n then l.take (l.length - n) else l
 
+/-- drop the trailing elements satisfying `p` (and nothing else): `while l and p(l[-1]): l.pop()` -/
+def stripTrailing {α} (p : α → Bool) (l : List α) : List α := (l.reverse.dropWhile p).reverse
+
 def isEmptyVal : Option Str → Bool
   | .none => true
   | some s => allSpace s
@@ -291,9 +294,9 @@ structure CsvAcc where
   headers : Option (List Str)
   deriving Repr, DecidableEq
 
-/-- `{k: v for k, v in zip(current_headers, content, strict=False) if v != ""}` -/
+/-- `{k: v.replace(chr(160), " ") for k, v in zip(current_headers, content, strict=False) if v != ""}` -/
 def zipDict : List Str → List Str → KRow → KRow
-  | h :: hs, v :: vs, acc => zipDict hs vs (if v = [] then acc else dset (some h) v acc)
+  | h :: hs, v :: vs, acc => zipDict hs vs (if v = [] then acc else dset (some h) (replaceNbsp v) acc)
   | _, _, acc => acc
 
 /-- `str(sheet_name)` / f-string of a `str | None` -/
@@ -323,7 +326,17 @@ def csvRow (a : CsvAcc) (row : List Str) : Except Err CsvAcc :=
   | .error e => .error e
   | .ok a =>
     match content with
-    | .none => .ok a
+    | .none =>
+      -- a blank row amongst the data (`len(row) > 1`, no sheet title): kept as `{}`
+      if maybe.isNone && decide (1 < row.length) && a.headers.isSome then
+        match a.sheet with
+        | .none => .ok a
+        | some sn =>
+          match dget sn a.book with
+          | some (.rows l) => .ok { a with book := dset sn (.rows (l ++ [[]])) a.book }
+          | some _ => .error .unsupported
+          | .none => .ok a
+      else .ok a
     | some c =>
       match a.headers with
       | .none => .ok { a with headers := some c, book := dset (optStr a.sheet ++ headerSuffix) (.header (l2dl c)) a.book }
@@ -336,8 +349,15 @@ def csvRow (a : CsvAcc) (row : List Str) : Except Err CsvAcc :=
           | some _ => .error .unsupported
           | .none => .error .keyError
 
+/-- the final loop of `process_csv_data`: trailing blank rows of every sheet are popped -/
+def csvTrim (b : Book) : Book :=
+  b.map fun (k, v) =>
+    match v with
+    | .rows l => if k = sheetNamesKey || endsWith k headerSuffix then (k, v) else (k, .rows (stripTrailing (·.isEmpty) l))
+    | _ => (k, v)
+
 def csvProcess : CsvAcc → List (List Str) → Except Err Book
-  | a, [] => .ok a.book
+  | a, [] => .ok (csvTrim a.book)
   | a, r :: rest => match csvRow a r with
     | .ok a' => csvProcess a' rest
     | .error e => .error e
@@ -425,19 +445,22 @@ def mdLine (st : MdSt) (line0 : Str) : MdSt :=
         let st2 := match mdStrp c0 with
           | some f => { st with name := some f, arr := some [] }
           | .none => st
-        if st2.name.isSome && row.any Option.isSome then { st2 with arr := st2.arr.map (· ++ [row]) } else st2
+        -- a blank row amongst the data (`first_col is None and sheet_arr`) is kept
+        let arrTruthy := match st2.arr with | some (_ :: _) => true | _ => false
+        if st2.name.isSome && (row.any Option.isSome || ((mdStrp c0).isNone && arrTruthy)) then
+          { st2 with arr := st2.arr.map (· ++ [row]) } else st2
     { st1 with sheets := dset st1.name st1.arr st1.sheets }
 
 def mdStructure (t : Str) : List (Option Str × Option (List MdRow)) :=
   ((splitOnChar '\n' t).foldl mdLine ⟨.none, .none, []⟩).sheets
 
-/-- `{arr[0][i]: v for i, v in enumerate(row[:n_cols]) if v not in {None, ""}}` with
-`n_cols = len(arr[0])`: cells beyond the header row have no column name and are ignored. -/
+/-- `{arr[0][i]: v.replace(chr(160), " ") for i, v in enumerate(row[:n_cols]) if v not in {None, ""}}`
+with `n_cols = len(arr[0])`: cells beyond the header row have no column name and are ignored. -/
 def mdRowDict : MdRow → MdRow → KRow → KRow
   | [], _, acc => acc
   | _ :: _, [], acc => acc
   | _ :: hs, .none :: vs, acc => mdRowDict hs vs acc
-  | h :: hs, some v :: vs, acc => mdRowDict hs vs (dset h v acc)
+  | h :: hs, some v :: vs, acc => mdRowDict hs vs (dset h (replaceNbsp v) acc)
 
 def mdRows (hdr : MdRow) (rows : List MdRow) : List KRow := rows.map fun r => mdRowDict hdr r []
 
@@ -446,7 +469,10 @@ rows and an empty header list. -/
 def mdSheet (key : Str) (contents : List MdRow) (b : Book) : Book :=
   match contents with
   | [] => dset (key ++ headerSuffix) (.header []) (dset key (.rows []) b)
-  | hdr :: rows => dset (key ++ headerSuffix) (.header (l2dl (hdr.map optStr))) (dset key (.rows (mdRows hdr rows)) b)
+  | hdr :: rows =>
+    -- `while len(arr) > 1 and not any(c is not None for c in arr[-1]): arr = arr[:-1]`
+    let rows' := stripTrailing (fun r : MdRow => !r.any Option.isSome) rows
+    dset (key ++ headerSuffix) (.header (l2dl (hdr.map optStr))) (dset key (.rows (mdRows hdr rows')) b)
 
 /-- the loop of `process_md_data` (605-620) -/
 def mdProcess (single : Bool) : List (Option Str × Option (List MdRow)) → Book → Except Err Book
